@@ -265,6 +265,10 @@ package iobroker
 //@   locals ich och bidirKeyBuf err
 //@   props C01 C04 C06
 //@   nilable ich, och
+//@   ghost rb []byte = nil
+//@   ghost nRead int = 0
+//@   on call rand.Read(p) (n, e): assert(len(p) == bidirKeyLen && nRead == 0, "a_full_length_random_sentinel_is_drawn_once"); rb = p; nRead++
+//@   ensures the_sentinel_is_the_random_bytes_just_drawn: imp(err == nil, nRead == 1 && b.bidirKey == string(rb))
 //@   ensures one_result: (b == nil) == (err != nil)
 //@   ensures idle: imp(err == nil, b.key == "" && b.cancelIn == nil && b.cancelOut == nil && !b.noMore && b.ownIn == 0 && b.ownOut == 0)
 //@   ensures ready: imp(err == nil, b.evListeners != nil && b.evCh != nil && b.ich == ich && b.och == och)
